@@ -16,6 +16,7 @@ import (
 	"github.com/remieven/ysgo/verifharness/core"
 	"github.com/remieven/ysgo/verifharness/gen"
 	"github.com/remieven/ysgo/verifharness/hast"
+	"github.com/remieven/ysgo/verifharness/mon"
 )
 
 // C18 — independent runners can be created and driven concurrently.
@@ -59,12 +60,14 @@ func (c18) Thresholds(tier string) map[string]int64 {
 		"distinct-interleaving-prefixes":            12,
 		"race-detector-enabled-children":            16,
 		"race-canary-reported":                      1,
-		"scripts-with-a-syntax-error-created-concurrently": 20,
+		"scripts-with-a-syntax-error-created-concurrently":       20,
+		"creation-from-a-reader-that-waits-for-another-creation": 16,
+		"shared-snapshot-unchanged-after-the-concurrent-phase":   16,
 	}
 }
 
 func (c18) Rule() string {
-	return "case = one fresh child process under the race detector (cold ANTLR DFA / prediction-context caches, GOMAXPROCS=16): G in {2, 8, 16, 64} goroutines are released by one barrier; each creates 1-3 runners from different generated programs (parsing concurrently), registers functions and commands and steps them along a PRNG choice policy with PRNG runtime.Gosched() between steps; programs use markup, the random built-ins with seeds, visit counts, variables and commands; every runner runs a raw command whose handler reads its arguments later from a goroutine of its own (they must still be the words written in that runner's script), every second runner is first restored from ONE snapshot value shared by all goroutines, one script in five carries a planted syntax error (its creation must fail with its own error text while the others are created), and every host writes a property of its own into the attribute maps of each element it was handed (they are its values). During the concurrent phase the harness performs no synchronisation of its own (per-goroutine logs with monotonic time stamps, merged afterwards), so that it cannot hide a race. Afterwards the same (program, seed, choice policy) executions are repeated sequentially in another fresh process. Oracle: every concurrent execution has the digest of its sequential reference (elements, errors, final variables) and the parent finds zero race-detector reports with a ysgo/antlr frame in the GORACE log files. Non-trivial: >=2 goroutines each stepping >=1 runner whose steps interleave in the merged log. Distinct by hash of the interleaving prefix."
+	return "case = one fresh child process under the race detector (cold ANTLR DFA / prediction-context caches, GOMAXPROCS=16): G in {2, 8, 16, 64} goroutines are released by one barrier; each creates 1-3 runners from different generated programs (parsing concurrently), registers functions and commands and steps them along a PRNG choice policy with PRNG runtime.Gosched() between steps; programs use markup, the random built-ins with seeds, visit counts, variables and commands; every runner runs a raw command whose handler reads its arguments later from a goroutine of its own (they must still be the words written in that runner's script), every second runner is first restored from ONE snapshot value shared by all goroutines, one script in five carries a planted syntax error (its creation must fail with its own error text while the others are created), and every host writes a property of its own into the attribute maps of each element it was handed (they are its values). One runner (goroutine 1's first) gets its script from a reader that delivers only after goroutine 0 has created its first runner; a 5-minute watchdog around the phase (normally a second or two) reports creations that block one another. Apart from that one ordered pair, during the concurrent phase the harness performs no synchronisation of its own (per-goroutine logs with monotonic time stamps, merged afterwards), so that it cannot hide a race. Afterwards the same (program, seed, choice policy) executions are repeated sequentially in another fresh process. Oracle: every concurrent execution has the digest of its sequential reference (elements, errors, final variables) and the parent finds zero race-detector reports with a ysgo/antlr frame in the GORACE log files. Non-trivial: >=2 goroutines each stepping >=1 runner whose steps interleave in the merged log. Distinct by hash of the interleaving prefix."
 }
 
 func (c18) Assumptions() []string {
@@ -142,6 +145,8 @@ func (p c18) Run(c *core.Ctx) {
 		goschedSeeds[g] = r.U64()
 	}
 	start := make(chan struct{})
+	firstCreated := make(chan struct{})
+	var closeOnce sync.Once
 	var wg sync.WaitGroup
 	for g := 0; g < G; g++ {
 		wg.Add(1)
@@ -153,16 +158,46 @@ func (p c18) Run(c *core.Ctx) {
 				if k == 0 {
 					firstStart[g] = int64(time.Since(base))
 				}
-				j.digest, j.sum = c18Exec(j.item, shared, gr, &logs[g], base, func() {
+				var gate <-chan struct{}
+				if g == 1 && k == 0 {
+					// creations are independent of one another: the script of this runner only arrives once
+					// goroutine 0 has created its first runner (a reader fed by another part of the game).
+					// This is the one place where two goroutines of the concurrent phase are ordered by the harness.
+					gate = firstCreated
+				}
+				j.digest, j.sum = c18Exec(j.item, shared, gr, &logs[g], base, gate, func() {
 					if k == 0 && firstDone[g] == 0 {
 						firstDone[g] = int64(time.Since(base))
+						if g == 0 {
+							closeOnce.Do(func() { close(firstCreated) })
+						}
 					}
 				})
+				if g == 0 {
+					// (its creation may have failed: the script may be one of those with a planted syntax error)
+					closeOnce.Do(func() { close(firstCreated) })
+				}
 			}
 		}(g)
 	}
 	close(start)
-	wg.Wait()
+	finished := make(chan struct{})
+	go func() { wg.Wait(); close(finished) }()
+	select {
+	case <-finished:
+	case <-time.After(5 * time.Minute):
+		// the whole phase normally takes a second or two
+		c.Violate("the concurrent phase did not finish within 5 minutes: a runner whose script arrives late (its reader waits for another runner to be created) blocked the creation of the others", map[string]any{"goroutines": G})
+		return
+	}
+	c.Feature("creation-from-a-reader-that-waits-for-another-creation")
+	// the shared snapshot is the host's value: whatever the runners did with it, it is what it was
+	if d := mon.SnapEq(startSnapshot(), shared); d != "" || len(shared.VisitedNodes) != len(startSnapshot().VisitedNodes) {
+		c.Violate("runners restored from one shared snapshot value modified it", map[string]any{"goroutines": G, "difference": d,
+			"visited_nodes_now": fmt.Sprint(shared.VisitedNodes), "visited_nodes_as_handed_over": fmt.Sprint(startSnapshot().VisitedNodes)})
+		return
+	}
+	c.Feature("shared-snapshot-unchanged-after-the-concurrent-phase")
 	// ---- evidence from the merged logs
 	var merged []c18Step
 	steps := 0
@@ -270,8 +305,8 @@ func breakSyntax(r *core.Rand, s string) string {
 
 // c18Exec is c09Exec with a per-goroutine step log and PRNG Gosched between steps. It performs no
 // synchronisation of its own.
-func c18Exec(it c09Item, shared *ysgo.Snapshot, gr *core.Rand, log *[]c18Step, base time.Time, created func()) (string, string) {
-	eo := execOpts{tag: it.Tag}
+func c18Exec(it c09Item, shared *ysgo.Snapshot, gr *core.Rand, log *[]c18Step, base time.Time, gate <-chan struct{}, created func()) (string, string) {
+	eo := execOpts{tag: it.Tag, gate: gate}
 	if it.Restore {
 		eo.restore = shared
 	}
